@@ -109,6 +109,7 @@ func init() {
 			ruleFMT4(c)
 			ruleNG3(c)
 			ruleLEX1(c)
+			ruleLEX1fresh(c, "LEX-1")
 			ruleLEX6(c) // the mark survives minimisation only if greedy and non-greedy states stay apart
 			ruleNG4(c)
 		},
@@ -187,6 +188,7 @@ func init() {
 		Explanation: "The automaton algebra (subset construction, refinement, range splitting) computes on run-time values and is NOT decided. Decided are the construction shapes and the selection mechanisms, each a necessary condition: Thompson shape of every NFACons (LEX-1), earliest declared rule wins in pickAction (LEX-2), the runtime acts only when the transition search is exhausted (LEX-3), universe constants (LEX-4), the Build/NFAToDFA pipeline skeleton (LEX-5), accepting states of different rules are kept apart by optimize (LEX-6) and its new states are wired before they are permuted and renumbered (LEX-9), plus the table format agreement FMT-1..3.",
 		Run: func(c *Ctx) {
 			ruleLEX1(c)
+			ruleLEX1fresh(c, "LEX-1")
 			ruleLEX2(c)
 			ruleLEX3(c)
 			ruleLEX3offsets(c, "LEX-3")
@@ -381,6 +383,7 @@ func init() {
 			ruleCC6(c)
 			ruleLEX4(c)
 			ruleLEX1(c)
+			ruleLEX1fresh(c, "LEX-1")
 			ruleLEX7(c)
 			ruleLEX8(c)
 		},
